@@ -36,6 +36,13 @@ silent_ref = _{ seq }
 atomic_via_silent = @{ b ~ silent_ref }
 compound_via_silent = ${ silent_ref ~ b }
 insens2 = { ^"Éb" ~ a? }
+builtin = { ASCII_DIGIT+ ~ LETTER* ~ (EMOJI | ASCII_HEX_DIGIT)? ~ NEWLINE? }
+stk2 = { PUSH(a | b) ~ PUSH(b)? ~ (PEEK[-1..] ~ PEEK_ALL | PEEK[0..1] ~ POP_ALL) ~ a? }
+pushskip = { PUSH(a ~ b) ~ "c" ~ POP }
+deep = @{ a ~ deep_n }
+deep_n = { deep_s ~ b? }
+deep_s = _{ deep_na | a }
+deep_na = !{ a ~ b }
 untilc = @{ (!("c" | "*/") ~ ANY)* }
 "# } }
 
@@ -68,6 +75,13 @@ silent_ref = _{ seq }
 atomic_via_silent = @{ b ~ silent_ref }
 compound_via_silent = ${ silent_ref ~ b }
 insens2 = { ^"Éb" ~ a? }
+builtin = { ASCII_DIGIT+ ~ LETTER* ~ (EMOJI | ASCII_HEX_DIGIT)? ~ NEWLINE? }
+stk2 = { PUSH(a | b) ~ PUSH(b)? ~ (PEEK[-1..] ~ PEEK_ALL | PEEK[0..1] ~ POP_ALL) ~ a? }
+pushskip = { PUSH(a ~ b) ~ "c" ~ POP }
+deep = @{ a ~ deep_n }
+deep_n = { deep_s ~ b? }
+deep_s = _{ deep_na | a }
+deep_na = !{ a ~ b }
 untilc = @{ (!("c" | "*/") ~ ANY)* }
 "#]
     pub struct P;
@@ -102,6 +116,13 @@ silent_ref = _{ seq }
 atomic_via_silent = @{ b ~ silent_ref }
 compound_via_silent = ${ silent_ref ~ b }
 insens2 = { ^"Éb" ~ a? }
+builtin = { ASCII_DIGIT+ ~ LETTER* ~ (EMOJI | ASCII_HEX_DIGIT)? ~ NEWLINE? }
+stk2 = { PUSH(a | b) ~ PUSH(b)? ~ (PEEK[-1..] ~ PEEK_ALL | PEEK[0..1] ~ POP_ALL) ~ a? }
+pushskip = { PUSH(a ~ b) ~ "c" ~ POP }
+deep = @{ a ~ deep_n }
+deep_n = { deep_s ~ b? }
+deep_s = _{ deep_na | a }
+deep_na = !{ a ~ b }
 untilc = @{ (!("c" | "*/") ~ ANY)* }
 "#]
     pub struct T;
@@ -118,7 +139,7 @@ fn from_thin(t: &ThinToken<t::Rule>) -> Tree {
 }
 /// the documented difference: descendants of atomic / compound-atomic tokens are not exposed
 fn prune(t: &Tree) -> Tree {
-    let atomic = ["seq_atomic", "seq_compound", "nest", "nest2", "untilc", "atomic_via_silent", "compound_via_silent"].contains(&t.rule.as_str());
+    let atomic = ["seq_atomic", "seq_compound", "nest", "nest2", "untilc", "atomic_via_silent", "compound_via_silent", "deep"].contains(&t.rule.as_str());
     Tree { rule: t.rule.clone(), start: t.start, end: t.end, children: if atomic { vec![] } else { t.children.iter().map(prune).collect() } }
 }
 fn shift(t: &Tree, d: usize) -> Tree { Tree { rule: t.rule.clone(), start: t.start + d, end: t.end + d, children: t.children.iter().map(|c| shift(c, d)).collect() } }
@@ -134,7 +155,7 @@ fn skip_trailing(s: &str, mut p: usize) -> usize {
 fn rule_matches_at(name: &str, s: &str, loc: usize) -> Option<bool> {
     let pos = Position::new(s, loc)?;
     macro_rules! d { ($($r:ident),*) => { match name { $( stringify!($r) => Some(t::pairs::$r::try_check_partial(pos).is_ok()), )* "EOI" => Some(loc == s.len()), _ => None } } }
-    d!(a, b, seq, seq_atomic, seq_compound, seq_nonatomic, nest, nest2, rep, rep_n, choice, opt, pred, usesilent, stack, insens, nl, soi, anyrule, atomic_via_silent, compound_via_silent, insens2, untilc)
+    d!(builtin, stk2, pushskip, deep, deep_n, deep_na, a, b, seq, seq_atomic, seq_compound, seq_nonatomic, nest, nest2, rep, rep_n, choice, opt, pred, usesilent, stack, insens, nl, soi, anyrule, atomic_via_silent, compound_via_silent, insens2, untilc)
 }
 /// C10 truthfulness: every rule listed as expected fails at the location, every rule listed as unexpected matches there
 fn truthful(msg: &str, s: &str, loc: usize) -> Result<(), String> {
@@ -318,6 +339,12 @@ fn all_rules(s: &str, cases: &mut u64) -> Result<(), String> {
     check_rule!(atomic_via_silent, true, s, cases);
     check_rule!(compound_via_silent, true, s, cases);
     check_rule!(insens2, false, s, cases);
+    check_rule!(builtin, false, s, cases);
+    check_rule!(stk2, false, s, cases);
+    check_rule!(pushskip, false, s, cases);
+    check_rule!(deep, true, s, cases);
+    check_rule!(deep_n, false, s, cases);
+    check_rule!(deep_na, false, s, cases);
     check_tree!(a, s, cases); check_tree!(seq, s, cases); check_tree!(seq_nonatomic, s, cases); check_tree!(rep, s, cases); check_tree!(rep_n, s, cases);
     check_tree!(choice, s, cases); check_tree!(opt, s, cases); check_tree!(pred, s, cases); check_tree!(usesilent, s, cases); check_tree!(stack, s, cases);
     check_tree!(insens, s, cases); check_tree!(nl, s, cases); check_tree!(soi, s, cases);
@@ -333,6 +360,8 @@ fn all_sub(s: &str, cases: &mut u64) -> Result<(), String> {
     check_sub!(insens, s, cases);
     check_sub!(anyrule, s, cases);
     check_sub!(insens2, s, cases);
+    check_sub!(stk2, s, cases);
+    check_sub!(deep, s, cases);
     Ok(())
 }
 
@@ -340,7 +369,7 @@ fn all_sub(s: &str, cases: &mut u64) -> Result<(), String> {
 fn nb_gen_vs_pest() {
     let l = bound(5);
     let mut cases = 0u64;
-    for s in strings(&["a", "b", " ", "c", "B"], l).iter().chain(strings(&["a", "b", "/", "*", " "], l).iter()).chain(strings(&["a", "b", "\n", "\r", "c", "é", "É", "😀"], l.min(4)).iter()) {
+    for s in strings(&["a", "b", " ", "c", "B"], l).iter().chain(strings(&["a", "b", "/", "*", " "], l).iter()).chain(strings(&["a", "b", "\n", "\r", "c", "é", "É", "😀", "1"], l.min(4)).iter()) {
         let r = std::panic::catch_unwind(std::panic::AssertUnwindSafe(|| all_rules(s, &mut cases)));
         match r {
             Ok(Ok(())) => {}
@@ -348,7 +377,7 @@ fn nb_gen_vs_pest() {
             Err(_) => { println!("NB-RESULT name=nb_gen_vs_pest status=fail cases={} key=input={:?} detail=C09: panic", cases, s); return; }
         }
     }
-    println!("NB-RESULT name=nb_gen_vs_pest status=ok cases={} key=- detail=22 rules x all strings<={} chars over 3 alphabets: verdict/offset/tree vs pest, check==parse incl. error text, full parse, error location, traversal helpers", cases, l);
+    println!("NB-RESULT name=nb_gen_vs_pest status=ok cases={} key=- detail=28 rules x all strings<={} chars over 3 alphabets: verdict/offset/tree vs pest, check==parse incl. error text, full parse, error location, traversal helpers", cases, l);
 }
 #[test]
 fn nb_gen_subinput() {
@@ -362,7 +391,7 @@ fn nb_gen_subinput() {
             Err(_) => { println!("NB-RESULT name=nb_gen_subinput status=fail cases={} key=input={:?} detail=C09: panic", cases, s); return; }
         }
     }
-    println!("NB-RESULT name=nb_gen_subinput status=ok cases={} key=- detail=9 rules x all strings<={} chars over 2 alphabets x all sub-ranges: Span / Position sub-input vs fresh copy (partial and full, offsets and trees)", cases, l);
+    println!("NB-RESULT name=nb_gen_subinput status=ok cases={} key=- detail=11 rules x all strings<={} chars over 2 alphabets x all sub-ranges: Span / Position sub-input vs fresh copy (partial and full, offsets and trees)", cases, l);
 }
 
 
